@@ -10,11 +10,27 @@ import torch
 import torch.nn.functional as fn
 from torch import Tensor
 from torch.distributions.normal import Normal
-from torch.distributions.utils import broadcast_all
+from torch.distributions.utils import broadcast_all as _broadcast_all
 
 from pfhedge import autogreek
 from pfhedge._utils.bisect import bisect
 from pfhedge._utils.typing import TensorOrScalar
+
+
+def broadcast_all(*values: TensorOrScalar) -> Tuple[Tensor, ...]:
+    """Broadcasts the values as :func:`torch.distributions.utils.broadcast_all` does.
+
+    Integer tensors (e.g. time to maturity in whole years) are converted to the
+    default floating point dtype first: otherwise numbers given along with them
+    (e.g. ``volatility=0.2``) would be truncated to integers.
+    """
+    values = tuple(
+        value.to(torch.get_default_dtype())
+        if isinstance(value, Tensor) and not value.is_floating_point()
+        else value
+        for value in values
+    )
+    return _broadcast_all(*values)
 
 
 def european_payoff(input: Tensor, call: bool = True, strike: float = 1.0) -> Tensor:
